@@ -366,7 +366,7 @@ impl World {
                 pf_id,
                 owner.clone(),
                 &margined_perp::margined_pricefeed::InstantiateMsg {
-                    oracle_hub_contract: "x".into(),
+                    oracle_hub_contract: "oracle_hub".into(),
                 },
                 &[],
                 "pf",
@@ -378,7 +378,7 @@ impl World {
                 rpf_id,
                 owner.clone(),
                 &margined_perp::margined_pricefeed::InstantiateMsg {
-                    oracle_hub_contract: "x".into(),
+                    oracle_hub_contract: "oracle_hub".into(),
                 },
                 &[],
                 "rpf",
